@@ -1297,8 +1297,9 @@ class Signature:
                     composite,
                     ctx,
                     typevar_values,
-                    # If position is None we can't narrow so don't bother.
-                    is_overload=is_overload and position is not None,
+                    # We can only narrow an argument that was passed at a known
+                    # position or under a known keyword (not *args, **kwargs or defaults).
+                    is_overload=is_overload and isinstance(position, (int, str)),
                 )
             )
             if tv_map is None:
